@@ -10,6 +10,12 @@ package main
 import (
 	"bytes"
 	"fmt"
+	"go/ast"
+	"go/parser"
+	"go/token"
+	"os"
+	"path/filepath"
+	"sort"
 	"io"
 	"math"
 	"reflect"
@@ -1229,6 +1235,454 @@ func randHistory(n int) []popOp {
 	return h
 }
 
+
+// ---------------------------------------------------------------- every producer of a synchronisation message
+
+// scanSites parses the c2 sources of the tree under test and lists every call of writeDeviceInfo /
+// readDeviceInfo: the site (function, and inside the big switches the case) and the kind expression
+// (a constant, or a variable that is announced / read as one kind byte right before).
+func scanSites() (writes, reads []string, desc []string) {
+	repo := os.Getenv("VERIF_REPO")
+	if repo == "" {
+		repo = "/repo"
+	}
+	files, _ := filepath.Glob(filepath.Join(repo, "c2", "*.go"))
+	sort.Strings(files)
+	kinds := map[string]int{"infoHello": 0, "infoMigrate": 1, "infoRefresh": 2, "infoSync": 3, "infoProxy": 4, "infoSyncMigrate": 5}
+	fset := token.NewFileSet()
+	for _, fn := range files {
+		if strings.HasSuffix(fn, "_test.go") || strings.HasPrefix(filepath.Base(fn), "zz_verif") {
+			continue
+		}
+		f, err := parser.ParseFile(fset, fn, nil, 0)
+		if err != nil {
+			continue
+		}
+		for _, d := range f.Decls {
+			fd, ok := d.(*ast.FuncDecl)
+			if !ok || fd.Body == nil || fd.Name.Name == "writeDeviceInfo" || fd.Name.Name == "readDeviceInfo" {
+				continue
+			}
+			var stack []ast.Node
+			ast.Inspect(fd.Body, func(n ast.Node) bool {
+				if n == nil {
+					stack = stack[:len(stack)-1]
+					return true
+				}
+				stack = append(stack, n)
+				call, ok := n.(*ast.CallExpr)
+				if !ok {
+					return true
+				}
+				sel, ok := call.Fun.(*ast.SelectorExpr)
+				if !ok || (sel.Sel.Name != "writeDeviceInfo" && sel.Sel.Name != "readDeviceInfo") || len(call.Args) != 2 {
+					return true
+				}
+				wr := sel.Sel.Name == "writeDeviceInfo"
+				// enclosing case clause and enclosing block
+				cs := ""
+				var blk []ast.Stmt
+				var self ast.Stmt
+				for i := len(stack) - 1; i >= 0; i-- {
+					if st, ok := stack[i].(ast.Stmt); ok && self == nil {
+						if _, isBlk := st.(*ast.BlockStmt); !isBlk {
+							self = st
+						}
+					}
+					if cc, ok := stack[i].(*ast.CaseClause); ok && cs == "" {
+						var parts []string
+						for _, e := range cc.List {
+							parts = append(parts, exprText(e))
+						}
+						cs = strings.Join(parts, ",")
+						if blk == nil {
+							blk = cc.Body
+						}
+					}
+					if b, ok := stack[i].(*ast.BlockStmt); ok && blk == nil {
+						blk = b.List
+					}
+				}
+				kind := "(KFixed (-1))"
+				if id, ok := call.Args[0].(*ast.Ident); ok {
+					if k, ok := kinds[id.Name]; ok {
+						kind = fmt.Sprintf("(KFixed %d)", k)
+					} else if wr && announcedBefore(blk, call, id.Name, exprText(call.Args[1])) {
+						kind = "KAnnounced"
+					} else if !wr && readAsByte(fd.Body, id.Name, exprText(call.Args[1])) {
+						kind = "KAnnounced"
+					}
+				}
+				site := siteName(wr, fd.Name.Name, cs)
+				t := fmt.Sprintf("(%s, %s)", site, kind)
+				desc = append(desc, fmt.Sprintf("%s:%d %s %s/%s %s -> %s", filepath.Base(fn), fset.Position(call.Pos()).Line, sel.Sel.Name, fd.Name.Name, cs, exprText(call.Args[0]), t))
+				if wr {
+					writes = append(writes, t)
+				} else {
+					reads = append(reads, t)
+				}
+				return true
+			})
+		}
+	}
+	return
+}
+func exprText(e ast.Expr) string {
+	switch v := e.(type) {
+	case *ast.Ident:
+		return v.Name
+	case *ast.SelectorExpr:
+		return exprText(v.X) + "." + v.Sel.Name
+	case *ast.UnaryExpr:
+		return v.Op.String() + exprText(v.X)
+	}
+	return "?"
+}
+
+// announcedBefore: among the statements of the block, one statement before the one containing call is
+// `<w>.WriteUint8(<name>)` on the same writer and nothing between them.
+func announcedBefore(blk []ast.Stmt, call *ast.CallExpr, name, w string) bool {
+	for i, st := range blk {
+		if st.Pos() <= call.Pos() && call.End() <= st.End() && i > 0 {
+			es, ok := blk[i-1].(*ast.ExprStmt)
+			if !ok {
+				return false
+			}
+			c, ok := es.X.(*ast.CallExpr)
+			if !ok || len(c.Args) != 1 {
+				return false
+			}
+			return exprText(c.Fun) == w+".WriteUint8" && exprText(c.Args[0]) == name
+		}
+	}
+	return false
+}
+
+// readAsByte: the function assigns `<name>, _ := <r>.Uint8()` from the same reader.
+func readAsByte(body *ast.BlockStmt, name, r string) bool {
+	found := false
+	ast.Inspect(body, func(n ast.Node) bool {
+		as, ok := n.(*ast.AssignStmt)
+		if !ok || len(as.Lhs) == 0 || len(as.Rhs) != 1 {
+			return true
+		}
+		if exprText(as.Lhs[0]) != name {
+			return true
+		}
+		if c, ok := as.Rhs[0].(*ast.CallExpr); ok && exprText(c.Fun) == r+".Uint8" {
+			found = true
+		}
+		return true
+	})
+	return found
+}
+func siteName(wr bool, fn, cs string) string {
+	if wr {
+		switch {
+		case fn == "connectContextInner":
+			return "W_Connect"
+		case fn == "receiveSingle" && cs == "SvRegister":
+			return "W_Register"
+		case fn == "LoadContext":
+			return "W_LoadContext"
+		case fn == "muxHandleScript":
+			return "W_Script"
+		case fn == "muxHandleInternal" && cs == "task.MvTime":
+			return "W_MvTime"
+		case fn == "muxHandleInternal" && cs == "task.MvProxy":
+			return "W_MvProxy"
+		case fn == "muxHandleInternal" && cs == "task.MvRefresh":
+			return "W_MvRefresh"
+		case fn == "muxHandleInternal" && cs == "task.MvProfile":
+			return "W_MvProfile"
+		case fn == "SpawnProfile":
+			return "W_Spawn"
+		case fn == "MigrateProfile":
+			return "W_Migrate"
+		}
+		return "S_Other"
+	}
+	switch {
+	case fn == "connectContextInner":
+		return "R_Load"
+	case fn == "LoadContext":
+		return "R_LoadContext"
+	case fn == "talk" || fn == "talkSub":
+		return "R_Listener"
+	case fn == "receiveSingle" && cs == "SvResync":
+		return "R_Resync"
+	case fn == "handleInfoResult" && cs == "task.MvProxy":
+		return "R_MvProxy"
+	case fn == "handleInfoResult" && cs == "task.MvMigrate":
+		return "R_MvMigrate"
+	case fn == "handleInfoResult" && cs == "task.MvRefresh":
+		return "R_MvRefresh"
+	case fn == "handleInfoResult" && cs == "task.MvTime,task.MvProfile":
+		return "R_MvTime"
+	}
+	return "S_Other"
+}
+
+
+// ---------------------------------------------------------------- Scripts and direct tasks: SvResync / result absorbed by the server
+
+type sentry struct {
+	kind string // time refresh profile bad plain
+	o    order  // time: a Task* order
+	name string
+}
+
+func (e sentry) packet() *com.Packet {
+	switch e.kind {
+	case "time":
+		switch e.o.kind {
+		case "TaskDuration":
+			return task.Duration(time.Duration(e.o.t), int(e.o.j))
+		case "TaskKill":
+			return task.KillDate(e.o.k)
+		}
+		return task.WorkHours(e.o.w.Days, e.o.w.StartHour, e.o.w.StartMin, e.o.w.EndHour, e.o.w.EndMin)
+	case "refresh":
+		return task.Refresh()
+	case "profile":
+		return task.Profile(proxyProfile(3))
+	case "bad":
+		n := &com.Packet{ID: task.MvTime}
+		n.WriteUint8(0) // sleep/jitter order cut after its type byte
+		return n
+	}
+	return task.Pwd()
+}
+func machTerm(m *msess) string {
+	return fmt.Sprintf("(mkMachine %s %d %d %d %s %s %s %d %d %s)", bt(m.DevID[:]), m.System, m.PID, m.PPID, st(m.User), st(m.Version), st(m.Host), m.Elev, m.Caps, netTerm(m.Net))
+}
+func (e sentry) term(after *msess) string {
+	switch e.kind {
+	case "time":
+		return "ETime " + e.o.term()
+	case "refresh":
+		return "ERefresh " + machTerm(after)
+	case "profile":
+		return "EProfile"
+	case "bad":
+		return "EBad"
+	}
+	return "EPlain"
+}
+func (e sentry) desc() interface{} {
+	if e.kind == "time" {
+		d := e.o.desc()
+		d["entry"] = e.name
+		return d
+	}
+	return map[string]interface{}{"entry": e.name}
+}
+
+type sres struct {
+	resync   []byte
+	hasSync  bool
+	cli, srv *msess
+	err      string
+	panic    bool
+}
+
+func runSync(srvM, cliM *msess, script bool, stop bool, es []sentry) (r sres) {
+	defer func() {
+		if x := recover(); x != nil {
+			r = sres{panic: true, err: fmt.Sprint(x)}
+		}
+	}()
+	srv, cli := srvM.build(), cliM.build()
+	var n *com.Packet
+	if script {
+		sc := task.NewScript(stop, true)
+		for _, e := range es {
+			if err := sc.Add(e.packet()); err != nil {
+				return sres{err: "Script.Add: " + err.Error()}
+			}
+		}
+		var err error
+		if n, err = sc.Packet(); err != nil {
+			return sres{err: "Script.Packet: " + err.Error()}
+		}
+	} else {
+		n = es[0].packet()
+	}
+	if _, err := srv.Task(n); err != nil {
+		return sres{err: "Task: " + err.Error()}
+	}
+	q := c2.VerifC12PopSend(srv)
+	if q == nil {
+		return sres{err: "no packet queued"}
+	}
+	if script {
+		c2.VerifC12ScriptSync(cli, q)
+	} else if !c2.VerifC12ClientMux(cli, q) {
+		return sres{err: "client mux refused"}
+	}
+	got := false
+	for {
+		p := c2.VerifC12PopSend(cli)
+		if p == nil {
+			break
+		}
+		switch p.ID {
+		case c2.SvResync:
+			r.resync, r.hasSync = append([]byte{}, p.Payload()...), true
+			c2.VerifC12ReceiveSingle(srv, p)
+		case c2.RvResult:
+			got = true
+			if p.Flags&com.FlagError != 0 {
+				r.err = "task error"
+			} else if !script {
+				switch es[0].kind {
+				case "time", "refresh", "profile":
+					r.resync, r.hasSync = append([]byte{}, p.Payload()...), true
+				}
+			}
+			c2.VerifC12Handle(srv, p)
+		}
+	}
+	if !got {
+		return sres{err: "no result queued"}
+	}
+	r.cli, r.srv = observe(cli, cliM), observe(srv, srvM)
+	return r
+}
+
+func sameDevice(a, b *msess) bool {
+	return a.DevID == b.DevID && a.System == b.System && a.PID == b.PID && a.PPID == b.PPID && a.User == b.User && a.Version == b.Version &&
+		a.Host == b.Host && a.Elev == b.Elev && a.Caps == b.Caps && reflect.DeepEqual(normNet(a.Net), normNet(b.Net))
+}
+
+func doSync(srvM, cliM *msess, script, stop bool, es []sentry, class string) {
+	r := runSync(srvM, cliM, script, stop, es)
+	hd := make([]interface{}, len(es))
+	names := make([]string, len(es))
+	for i := range es {
+		hd[i], names[i] = es[i].desc(), es[i].name
+	}
+	how := "direct task"
+	if script {
+		how = "Script"
+	}
+	desc := map[string]interface{}{"sent_as": how, "stop_on_error": stop, "entries": hd, "client_before": cliM.desc(), "server_view_before": srvM.desc()}
+	if r.panic {
+		fail("a "+how+" panicked: "+r.err, "sync-panic-"+strings.Join(names, "+"), desc)
+		return
+	}
+	// which entries ran and succeeded (the documented Script semantics)
+	var ran []sentry
+	for _, e := range es {
+		if e.kind == "bad" {
+			if stop || !script {
+				break
+			}
+			continue
+		}
+		ran = append(ran, e)
+	}
+	lastSync := ""
+	for _, e := range ran {
+		if e.kind == "time" || e.kind == "refresh" || e.kind == "profile" {
+			lastSync = e.kind
+		}
+	}
+	var term string
+	switch {
+	case r.err != "" && (r.cli == nil || !script):
+		term = "(Err 1)"
+	default:
+		rs := "None"
+		if r.hasSync {
+			rs = "(Some " + vh.Bytes(r.resync) + ")"
+		}
+		term = fmt.Sprintf("(Ok (%s, %s, %s))", rs, r.cli.term(), r.srv.term())
+	}
+	et := make([]string, len(es))
+	for i := range es {
+		after := cliM
+		if r.cli != nil {
+			after = r.cli
+		}
+		et[i] = es[i].term(after)
+	}
+	if script {
+		out.Add(fmt.Sprintf("CScript %s %s %s %s %s", vh.B(stop), srvM.term(), cliM.term(), vh.List(et), term), "script-"+class+"-last-"+lastSync, lastSync != "", desc)
+	} else {
+		out.Add(fmt.Sprintf("CDirect %s %s (%s) %s", srvM.term(), cliM.term(), et[0], term), "direct-"+es[0].kind, lastSync != "", desc)
+	}
+	if r.cli == nil {
+		if !(len(es) > 0 && es[0].kind == "bad" && !script) {
+			desc["stage"] = r.err
+			fail("a "+how+" did not complete: "+r.err, "sync-incomplete-"+strings.Join(names, "+"), desc)
+		}
+		return
+	}
+	desc["client_after"], desc["server_view_after"] = r.cli.desc(), r.srv.desc()
+	if lastSync == "" {
+		return
+	}
+	key := how[:6] + "-" + strings.Join(names, "+")
+	// (1) the server's view of the four settings equals the client's
+	if r.srv.Jitter != r.cli.Jitter || r.srv.Sleep != r.cli.Sleep || !killMatches(r.cli.Kill, r.srv.Kill) || !workMatches(r.cli.Work, r.srv.Work) {
+		fail("after a "+how+" with synchronising entries the server's view of sleep/jitter/kill date/work hours differs from the client's", "sync-view-"+key, desc)
+		return
+	}
+	// (2) a refresh that is the last synchronising entry delivers the device details
+	if lastSync == "refresh" && !sameDevice(r.srv, r.cli) {
+		fail("after a "+how+" ending in a refresh the server's device details differ from the client's", "sync-identity-"+key, desc)
+		return
+	}
+	if lastSync != "refresh" {
+		for _, e := range ran {
+			if e.kind == "refresh" {
+				stats["refresh-followed-by-a-settings-entry-device-not-resynchronised"]++
+				break
+			}
+		}
+	}
+	// (3) the last ordered in-domain value of each setting is the client's
+	var wantJ, wantS *int64
+	var wantK *time.Time
+	var wantW *cfg.WorkHours
+	for i := range ran {
+		e := ran[i]
+		if e.kind != "time" {
+			continue
+		}
+		switch e.o.kind {
+		case "TaskDuration":
+			if e.o.j >= 0 && e.o.j <= 100 {
+				wantJ = &ran[i].o.j
+			} else if e.o.j != -1 {
+				wantJ = nil
+			}
+			if e.o.t > 0 {
+				wantS = &ran[i].o.t
+			}
+		case "TaskKill":
+			wantK = &ran[i].o.k
+		default:
+			wantW = ran[i].o.w
+		}
+	}
+	bad := ""
+	switch {
+	case wantJ != nil && int64(r.cli.Jitter) != *wantJ:
+		bad = "jitter"
+	case wantS != nil && r.cli.Sleep != *wantS:
+		bad = "sleep"
+	case wantK != nil && !killMatches(*wantK, r.cli.Kill):
+		bad = "kill date"
+	case wantW != nil && !workMatches(wantW, r.cli.Work):
+		bad = "work hours"
+	}
+	if bad != "" {
+		fail("the client's "+bad+" after a "+how+" is not the last ordered value", "sync-effect-"+bad+"-"+key, desc)
+	}
+}
+
 // ---------------------------------------------------------------- generators
 
 var (
@@ -1687,6 +2141,62 @@ func main() {
 		}
 		for i := 0; i < nh; i++ {
 			doProxyHistory(randSess(true), r0, randHistory(1+rng.Intn(6)), "random")
+		}
+	}
+
+	// ---- every producer: the call sites in the sources, Scripts in every ordering, direct tasks
+	{
+		ws, rs, sd := scanSites()
+		out.Add(fmt.Sprintf("CSites %s %s", vh.List(ws), vh.List(rs)), "producer-sites", true, map[string]interface{}{"call_sites": sd})
+		mk := func() (*msess, *msess) {
+			cli := randSess(true)
+			cli.Proxy = nil
+			if cli.Jitter > 100 {
+				cli.Jitter = uint8(rng.Intn(101))
+			}
+			srv := randSess(false)
+			srv.ID = cli.ID
+			return srv, cli
+		}
+		ks := kills()
+		pool := func() []sentry {
+			w := works()[1+rng.Intn(40)]
+			return []sentry{
+				{kind: "time", name: "Duration", o: order{kind: "TaskDuration", t: sleeps[rng.Intn(4)], j: int64(rng.Intn(101))}},
+				{kind: "time", name: "Sleep", o: order{kind: "TaskDuration", t: 1 + int64(rng.Intn(1<<30)), j: -1}},
+				{kind: "time", name: "Jitter", o: order{kind: "TaskDuration", t: 0, j: int64(rng.Intn(140)) - 10}},
+				{kind: "time", name: "KillDate", o: order{kind: "TaskKill", k: ks[rng.Intn(len(ks))]}},
+				{kind: "time", name: "WorkHours", o: order{kind: "TaskWork", w: w}},
+				{kind: "refresh", name: "Refresh"},
+				{kind: "profile", name: "Profile"},
+				{kind: "plain", name: "Pwd"},
+				{kind: "bad", name: "BrokenTime"},
+			}
+		}
+		for i := 0; i < 9; i++ {
+			srv, cli := mk()
+			doSync(srv, cli, false, false, []sentry{pool()[i]}, "direct")
+			srv, cli = mk()
+			doSync(srv, cli, true, i%2 == 0, []sentry{pool()[i]}, "single")
+		}
+		for i := 0; i < 7; i++ {
+			for j := 0; j < 7; j++ {
+				srv, cli := mk()
+				doSync(srv, cli, true, false, []sentry{pool()[i], pool()[j]}, "pair")
+			}
+		}
+		nt := 30
+		if thorough {
+			nt = 1500
+		}
+		for i := 0; i < nt; i++ {
+			n := 2 + rng.Intn(5)
+			es := make([]sentry, n)
+			for k := range es {
+				es[k] = pool()[rng.Intn(9)]
+			}
+			srv, cli := mk()
+			doSync(srv, cli, true, rng.Intn(3) == 0, es, "random")
 		}
 	}
 
